@@ -582,6 +582,9 @@ func main() {
 	ctx.Jobs("constructed", 1, func(int) { constructed() })
 	ctx.Jobs("long-length-fields", 1, func(int) { longLengthFields() })
 	ctx.Jobs("text-contents", 16, func(j int) { textContents(j, 16) })
+	if !ctx.IsChild() {
+		ctx.RacePairs("classify")
+	}
 	ctx.Sample(map[string]interface{}{"bytes": "FF 51 03", "as": "smf.Message", "expect": "meta tempo type, GetMetaTempo must not panic on the missing payload"})
 	ctx.Sample(map[string]interface{}{"bytes": "F2 01", "as": "midi.Message", "expect": "system common; GetSPP rejects (length), no other accessor accepts"})
 	ctx.Guard(ctx.NontrivialCount() > 100000, "too few strings accepted by exactly one accessor: %d", ctx.NontrivialCount())
